@@ -169,7 +169,131 @@ def install_seams() -> None:
         core_mod.lx = _LxProxy(core_mod.lx)
     if not isinstance(sys.stdout, _FakeStdout):
         sys.stdout = _FakeStdout(sys.stdout)
+    _install_lock_seam()
     _seams_installed = True
+
+
+# -- lock seam ------------------------------------------------------------------------------------
+# furax has no lock today.  An implementation that adds one (around a cache, a table of states) must
+# not wedge the baton: a thread parked by the line monitor while holding a real lock would block the
+# next actor that wants it, with the baton in hand.  So every lock the configuration modules own, or
+# create later through their `threading` name, becomes a cooperative lock: an actor that finds it taken
+# hands the baton on instead of blocking.
+
+class SimLock:
+    def __init__(self, reentrant: bool = False):
+        self._reentrant = reentrant
+        self._owner = None  # threading.get_ident() of the holder
+        self._count = 0
+        self._guard = threading.Lock()
+
+    def _try(self) -> bool:
+        me = threading.get_ident()
+        with self._guard:
+            if self._owner is None:
+                self._owner, self._count = me, 1
+                return True
+            if self._reentrant and self._owner == me:
+                self._count += 1
+                return True
+            return False
+
+    def acquire(self, blocking: bool = True, timeout: float = -1) -> bool:
+        if self._try():
+            return True
+        if not blocking:
+            return False
+        fr = getattr(tls, 'frame', None)
+        actor = getattr(tls, 'actor', None)
+        run = actor.run if actor is not None else None
+        spins = 0
+        while not self._try():
+            spins += 1
+            if run is not None and run.sched is not None and fr is not None and not run.aborting:
+                run.probe('lock_contended_baton_passed_on')
+                run.sched.yield_to_other(actor.slot)  # raises HarnessError if nobody else can run
+            else:
+                import time as _time
+
+                _time.sleep(0.0005)  # not under the scheduler (task world helper threads): plain wait
+            if spins > 200_000:
+                raise HarnessError('SimLock: could not acquire (deadlock in the code under test?)')
+        return True
+
+    def release(self) -> None:
+        with self._guard:
+            if self._owner is None:
+                raise RuntimeError('release unlocked lock')
+            self._count -= 1
+            if self._count == 0:
+                self._owner = None
+
+    def locked(self) -> bool:
+        return self._owner is not None
+
+    def __enter__(self):
+        self.acquire()
+        return True
+
+    def __exit__(self, *exc):
+        self.release()
+        return False
+
+
+class _ThreadingProxy:
+    """Stands in for the name `threading` inside furax's configuration modules."""
+
+    def __init__(self, real):
+        object.__setattr__(self, '_real', real)
+
+    def __getattr__(self, name):
+        return getattr(object.__getattribute__(self, '_real'), name)
+
+    def Lock(self):  # noqa: N802
+        return SimLock(False)
+
+    def RLock(self):  # noqa: N802
+        return SimLock(True)
+
+
+def _install_lock_seam() -> None:
+    import _thread
+    import types
+
+    from furax._base import blocks as blocks_mod
+    from furax._base import config as config_mod
+    from furax._base import core as core_mod
+
+    lock_types = (_thread.LockType, type(threading.RLock()))
+
+    def swap_in(holder_dict_get, holder_set, names):
+        for name in names:
+            value = holder_dict_get(name)
+            if isinstance(value, lock_types):
+                holder_set(name, SimLock(not isinstance(value, _thread.LockType)))
+
+    for mod in (config_mod, core_mod, blocks_mod):
+        names = list(vars(mod))
+        swap_in(lambda n, mod=mod: vars(mod).get(n), lambda n, v, mod=mod: setattr(mod, n, v), names)
+        if isinstance(vars(mod).get('threading'), types.ModuleType):
+            mod.threading = _ThreadingProxy(mod.threading)
+        for obj in list(vars(mod).values()):
+            if getattr(obj, '__module__', None) != mod.__name__:
+                continue
+            if isinstance(obj, type):
+                # class-level locks
+                for n, v in list(vars(obj).items()):
+                    if isinstance(v, lock_types):
+                        setattr(obj, n, SimLock(not isinstance(v, _thread.LockType)))
+            d = getattr(obj, '__dict__', None)
+            if isinstance(d, dict) and not isinstance(obj, (type, types.ModuleType, types.FunctionType)):
+                # module-level instances holding a lock (e.g. a table object created at import time)
+                for n, v in list(d.items()):
+                    if isinstance(v, lock_types):
+                        try:
+                            setattr(obj, n, SimLock(not isinstance(v, _thread.LockType)))
+                        except Exception:  # pragma: no cover - frozen objects keep their lock
+                            pass
 
 
 def real_stdout():
